@@ -150,6 +150,7 @@ class CallGraph:
             for lv in st.lvalues:
                 names.append(lv.fullname or f'{mod}.{lv.name}')
                 names.append('*.' + lv.name)
+                self._lvalue_ids.add(id(lv))        # binding the table is not reading it
             self._table_ctx = names
             self._callee_ids = set()
             todo = [st.rvalue]
@@ -341,9 +342,14 @@ class CallGraph:
             t = self.tf.types.get(x.expr)
             infos = self._infos_of_type(t)
             resolved = False
+            in_table = bool(self._table_ctx) and id(x) not in self._callee_ids
             for info in infos:
                 for tgt in self._method_targets(info, x.name):
-                    self._edge(owner, tgt)
+                    if in_table:
+                        for key_ in self._table_ctx:
+                            self.var_lambdas[key_].add(tgt)       # a method kept in a table: reached by whoever reads the table
+                    else:
+                        self._edge(owner, tgt)
                     resolved = True
             if not infos and (t is None or self.tf.is_any(t)):
                 # Any-typed receiver: name-based fallback restricted to package methods
